@@ -918,7 +918,13 @@ func c01Length(r *core.Report) {
 			if !strings.Contains(core.ExprStr(be.Y), "Length") {
 				return true
 			}
-			if id, ok := ast.Unparen(be.X).(*ast.Ident); ok && length == nil {
+			x := ast.Unparen(be.X)
+			if c, ok := x.(*ast.CallExpr); ok && len(c.Args) == 1 {
+				if tv, ok := info.Types[c.Fun]; ok && tv.IsType() {
+					x = ast.Unparen(c.Args[0]) // uint64(length)
+				}
+			}
+			if id, ok := x.(*ast.Ident); ok && length == nil {
 				length = info.ObjectOf(id)
 			}
 			return true
